@@ -21,7 +21,7 @@ ANCHORS = ['BitArray.append', 'BitArray.prepend', 'BitArray.insert', 'BitArray.o
            'BitArray.__irshift__', 'BitArray.__imul__', 'BitArray.__iand__', 'BitArray.__ior__', 'BitArray.__ixor__',
            'BitArray.clear', 'BitArray.__iadd__', 'Bits._imul', 'Bits._reversebytes', 'Bits._overwrite', 'Bits._insert',
            'BitStream.insert', 'BitStream.replace', 'BitStream.__setitem__', 'BitStream.__delitem__', 'ConstBitStream.overwrite']
-REQUIRED_OPS = list(_mut.OPS)
+REQUIRED_OPS = list(_mut.OPS) + ['mutate-operand']
 MIN_EVALS = {'quick': 20000, 'thorough': 300000}
 ASSUMPTIONS = ['MSB0 mode (LSB0 mutators are judged by C12); stream positions are judged by C06']
 
@@ -33,17 +33,50 @@ def episode(ctx, case, nsteps=0):
     s = mk(cls, m)
     steps = case['steps']
     i = 0
+    watched = []          # operands handed to earlier steps: [object, expected bits, op that used it]
     with util.options(lsb0=False, bytealigned=case.get('oba', False)):
         while True:
             if i < len(steps):
                 op, a = steps[i]
             elif i < nsteps:
-                op, a = _mut.gen_step(ctx.rng, len(m))
+                if watched and ctx.rng.random() < 0.12:
+                    op, a = 'mutate-operand', [ctx.rng.randrange(len(watched)), ctx.rng.choice(['invert', 'append', 'clear'])]
+                else:
+                    op, a = _mut.gen_step(ctx.rng, len(m))
                 steps.append([op, a])
             else:
                 break
             i += 1
-            m = _mut.judge_step(ctx, PROP, s, m, op, a, case, extra_key=case['cls'] if i == 1 else '')
+            if op == 'mutate-operand':
+                # "nothing else moves", in both directions: changing an operand of an EARLIER step must not reach the receiver
+                if a[0] < len(watched) and type(watched[a[0]][0]).__name__ in util.MUTABLE:
+                    w = watched[a[0]]
+                    o = w[0]
+                    if a[1] == 'invert' and len(o):
+                        o.invert()
+                    elif a[1] == 'clear':
+                        o.clear()
+                    else:
+                        o.append('0b1')
+                    w[1] = util.B(o)
+                    ctx.op('mutate-operand')
+                    if util.B(s) != m:
+                        ctx.mismatch(f'C03|aliasing|operand-of:{w[2]}|receiver-changed-when-operand-mutated-later', case,
+                                     f'{m[:60]} -> {util.B(s)[:60]}')
+                        m = util.B(s)
+                    else:
+                        ctx.ok(('mutate-operand', w[2]), True)
+                continue
+            retained = []
+            m = _mut.judge_step(ctx, PROP, s, m, op, a, case, extra_key=case['cls'] if i == 1 else '', retained=retained)
+            for o, bits in retained:
+                watched.append([o, bits, op])
+            del watched[:-6]
+            for w in watched:
+                if util.B(w[0]) != w[1]:
+                    ctx.mismatch(f'C03|aliasing|operand-of:{w[2]}|operand-changed-by-later-step:{op}', case,
+                                 f'operand {type(w[0]).__name__} {w[1][:50]} -> {util.B(w[0])[:50]}')
+                    w[1] = util.B(w[0])
             ctx.state(m if len(m) < 200 else hash(m))
 
 
